@@ -130,6 +130,10 @@ def run_case(ctx, case):
                     hist = hist + [pad(c, cols) for c in cells[:ret]]
                     top_abs += ret
                 prev = repr(st["array"])
+                nxt = case["steps"][k + 1] if k + 1 < len(case["steps"]) else None
+                if not (nxt and nxt.get("inplace")):
+                    # the frame is dropped before the next one is built (its rows' addresses get reused)
+                    frame = vals = v = None
         finally:
             if entered:
                 w.__exit__(None, None, None)
